@@ -342,7 +342,9 @@ def _extract_witness(scratch, outdir, jobs=None):
                 builder = "Default"
                 if "--builder-type" in args:
                     builder = args[args.index("--builder-type") + 1]
-                if "custom" not in [a.lower() for a in args]:
+                # a custom-builder parser is generic in B and type-checks without user code (seed C11-10); a custom lexer
+                # imports the user's <grammar>_lexer module and cannot be checked alone
+                if not ("--lexer-type" in args and args[args.index("--lexer-type") + 1].lower() == "custom"):
                     decl = "pub mod %s { #![allow(warnings)] pub mod %s;" % (modname, base)
                     if os.path.exists(os.path.join(wdir, base + "_actions.rs")):
                         decl += " pub mod %s_actions;" % base
